@@ -368,7 +368,7 @@ class Interp:
         if isinstance(v, Alt):
             return zor(*[zand(g, self.as_z3bool(self.truth(x))) for g, x in v.alts])
         if isinstance(v, GuardedLog):
-            raise Unsupported("truthiness of guarded log")
+            return v.nonempty()
         return bool(v)
 
     @staticmethod
